@@ -8,6 +8,7 @@ import (
 	"os"
 	"path"
 	"path/filepath"
+	"slices"
 	"strings"
 	"time"
 
@@ -521,6 +522,10 @@ func (w *Worktree) doAddFile(cfg *config.Config, idx *index.Index, s Status, pat
 		// The file is gone, or a directory has taken its place (or a file
 		// the place of its directory): there is nothing to read at path.
 		h, err = w.deleteFromIndex(idx, path)
+		if errors.Is(err, index.ErrEntryNotFound) {
+			// already dropped together with the entry that took its place
+			return false, h, nil
+		}
 		return err == nil, h, err
 	}
 
@@ -638,7 +643,20 @@ func (w *Worktree) addOrUpdateFileToIndex(idx *index.Index, filename string, h p
 	return nil
 }
 
+// removeConflictingEntries drops the entries that cannot share a tree with
+// name: the entry of one of its leading directories (a file until now) and
+// the entries below name (a directory until now). git does the same when it
+// adds an entry (check_file_directory_conflict).
+func removeConflictingEntries(idx *index.Index, name string) {
+	name = filepath.ToSlash(name)
+	idx.Entries = slices.DeleteFunc(idx.Entries, func(e *index.Entry) bool {
+		return strings.HasPrefix(e.Name, name+"/") || strings.HasPrefix(name, e.Name+"/")
+	})
+}
+
 func (w *Worktree) doAddFileToIndex(idx *index.Index, filename string, h plumbing.Hash) error {
+	removeConflictingEntries(idx, filename)
+
 	e, err := idx.Add(filename)
 	if err != nil {
 		return err
